@@ -27,7 +27,7 @@ const SECRET_UP: &[u8] = b"UPSTREAM-CONTENT-SECRET";
 
 pub fn config_text(dir: &std::path::Path, mode: &str, cache: bool, port: u16, addr: &str, upstream: &str) -> String {
     format!(
-        "server {{\n  address \"{}\"\n  port {}\n  threads 4\n  log {{\n    console false\n  }}\n  blacklist {{\n    file \"{}\"\n    mode \"{}\"\n  }}\n  cache {{\n    size {}\n    time 60\n  }}\n  route /f {{\n    file \"{}\"\n  }}\n  route /d/* {{\n    directory \"{}\"\n  }}\n  route /p/* {{\n    proxy \"{}\"\n  }}\n  route /r {{\n    redirect \"/elsewhere\"\n  }}\n}}",
+        "server {{\n  address \"{}\"\n  port {}\n  threads 4\n  log {{\n    console false\n  }}\n  blacklist {{\n    file \"{}\"\n    mode \"{}\"\n  }}\n  cache {{\n    size {}\n    time 60\n  }}\n  route /f {{\n    file \"{}\"\n  }}\n  route /d/* {{\n    directory \"{}\"\n  }}\n  route /p/* {{\n    proxy \"{}\"\n  }}\n  route /r {{\n    redirect \"/elsewhere\"\n  }}\n  host \"h1.test\" {{\n    route /hostfile {{\n      file \"{}\"\n    }}\n  }}\n  host \"h2.test\" {{\n    route /other {{\n      redirect \"/\"\n    }}\n    route /hostfile {{\n      file \"{}\"\n    }}\n  }}\n}}",
         addr,
         port,
         dir.join("blacklist.txt").display(),
@@ -35,7 +35,9 @@ pub fn config_text(dir: &std::path::Path, mode: &str, cache: bool, port: u16, ad
         if cache { 65536 } else { 0 },
         dir.join("www").join("f.html").display(),
         dir.join("www").display(),
-        upstream
+        upstream,
+        dir.join("www").join("h1.txt").display(),
+        dir.join("www").join("h2.txt").display()
     )
 }
 
@@ -44,6 +46,8 @@ pub fn make_tree(dir: &std::path::Path, list: &[&str]) {
     std::fs::create_dir_all(dir.join("www")).unwrap();
     std::fs::write(dir.join("www").join("f.html"), SECRET_FILE).unwrap();
     std::fs::write(dir.join("www").join("a.txt"), SECRET_DIR).unwrap();
+    std::fs::write(dir.join("www").join("h1.txt"), b"content of host one").unwrap();
+    std::fs::write(dir.join("www").join("h2.txt"), b"CONTENT OF HOST TWO").unwrap();
     std::fs::write(dir.join("blacklist.txt"), list.join("\n")).unwrap();
 }
 
@@ -241,6 +245,10 @@ fn in_process(st: &mut Stats, quick: bool) {
 // ---------------- end to end against the real binary ----------------
 
 fn http_get(from: &str, to: &str, path: &str, xff: Option<&str>) -> std::io::Result<Vec<u8>> {
+    http_get_host(from, to, path, xff, "x")
+}
+
+fn http_get_host(from: &str, to: &str, path: &str, xff: Option<&str>, host: &str) -> std::io::Result<Vec<u8>> {
     use std::net::{SocketAddr, TcpStream as Std};
     let from: SocketAddr = from.parse().unwrap();
     let to: SocketAddr = to.parse().unwrap();
@@ -284,7 +292,7 @@ fn http_get(from: &str, to: &str, path: &str, xff: Option<&str>) -> std::io::Res
     };
     let mut sock = sock;
     sock.set_read_timeout(Some(std::time::Duration::from_secs(5)))?;
-    let mut t = format!("GET {} HTTP/1.1\r\nHost: x\r\nConnection: close\r\n", path);
+    let mut t = format!("GET {} HTTP/1.1\r\nHost: {}\r\nConnection: close\r\n", path, host);
     if let Some(x) = xff {
         t.push_str(&format!("X-Forwarded-For: {}\r\n", x));
     }
@@ -395,6 +403,27 @@ fn end_to_end(cx: &mut Ctx, st: &mut Stats) {
                                 }
                             }
                             Verdict::Either => s.outcome("e2e-undecided"),
+                        }
+                    }
+                }
+            }
+            // "served normally" includes being served by one's own host section: two hosts with the same path and
+            // different files, the cache on, asked alternately by an unlisted client
+            let unlisted = if family == "v4" { Some("127.0.0.9") } else if list.is_empty() { Some("::1") } else { None };
+            if let Some(peer) = unlisted {
+                let from = if family == "v4" { format!("{}:0", peer) } else { format!("[{}]:0", peer) };
+                for round in 0..2 {
+                    for (host, want_body) in [("h1.test", &b"content of host one"[..]), ("h2.test", &b"CONTENT OF HOST TWO"[..])] {
+                        s.evaluations += 1;
+                        s.states += 1;
+                        s.transitions += 1;
+                        s.traces_validated += 1;
+                        let got = http_get_host(&from, &target, "/hostfile", None, host).unwrap_or_default();
+                        let ok = read_responses(&got).map_or(false, |g| g.len() == 1 && g[0].status == 200 && g[0].body == want_body);
+                        if !ok {
+                            s.violation("[end-to-end] an unlisted client is not served its own host section's file", || json!({"end_to_end": true, "host": host, "round": round, "mode": mode, "client_saw": show(&got[..got.len().min(200)])}));
+                        } else {
+                            s.outcome("e2e-host-file");
                         }
                     }
                 }
